@@ -1,4 +1,5 @@
 import IpcModel.Frag
+import IpcModel.Cmsg
 import IpcModel.Wire
 import IpcModel.SideTable
 /-! Line-protocol driver: one request per line on stdin, one canonical answer per line on stdout.
@@ -39,7 +40,7 @@ def cmdFrag (toks : List String) : String :=
   match kvNat toks "sys", kvNat toks "len", kvNat toks "nfds" with
   | some sys, some len, some nfds =>
     let faults := ((kv toks "faults").getD "").toList.map faultOfChar
-    let r := sendLoop sys len faults
+    let r := Cmsg.osSend sys len nfds faults
     s!"res={resStr r.1} atts={"|".intercalate (r.2.map (attStr nfds))}"
   | _, _, _ => "bad-request"
 
